@@ -13,6 +13,7 @@ def run(cx):
     h, n = hc.check_tails(cx, "C01.R1", lambda after_dispatch: after_dispatch)
     cx.floor("C01.R1", "Ok returns of handle()", len(h.ok_assigns), 4)
     r2(cx, h)
+    r2b(cx, h)
     check_one_reply_paths(cx, "C01.R3")
     r4(cx)
 
@@ -55,6 +56,33 @@ def r2(cx, h):
     cx.check(not hit and not loops, "C01.R2", "handle:parse-error-edge", "%s %s" % (h.from_slice.sp, body.path),
              "the parse-error edge reaches a dispatch/reply site or re-enters the read loop (blocks %s)" % (hit + loops),
              note_ok="parse error leaves handle() without dispatching")
+
+def r2b(cx, h):
+    """an error from a dispatch (the interface replied nothing, or could not write) must end handle() with Err — R3 counts `0 replies + Err` as answered-by-closing"""
+    body, cfg, du = h.body, h.cfg, h.du
+    sl = Slice(body, du)
+    ru_blocks = {t.bb for t in h.read_untils}
+    disp = list(h.dispatch) + list(h.upgraded_calls)
+    for i, t in enumerate(disp):
+        key = "handle:dispatch#%d:%s:error-propagates" % (i, t.callee.name)
+        site = "%s %s" % (t.sp, body.path)
+        # the switch on the result (directly or through `?`)
+        err_edges = []
+        for b in sorted(cfg.reach(t.target)):
+            term = body.blocks[b].term
+            if term.kind != "switch": continue
+            c = switch_cond(body, du, term)
+            if c.kind == "discr" and any(k == "call" and o is t for k, o in sl.origins(c.place)) and ("Result" in body.ty(c.place.l) or "ControlFlow" in body.ty(c.place.l)):
+                err_edges.append(variant_edge(term, 1)); break
+        if not err_edges:
+            cx.bad("C01.R2", key, site, "the result of the dispatch is never examined: an interface that failed without replying leaves the request unanswered while the connection stays open"); continue
+        r = cfg.reach(err_edges[0][2])
+        again = sorted(b for b in ru_blocks if b in r)
+        okret = [s.bb for s in h.ok_assigns if s.bb in r]
+        cx.check(not again and not okret, "C01.R2", key, site,
+                 "after a dispatch error handle() can go on reading (%s) or return Ok: the failed request is skipped silently while the connection stays open" % ("next read_until" if again else "Ok return"),
+                 note_ok="Err -> return Err (connection is closed by the caller)")
+
 
 def r4(cx):
     body = cx.mir.one("varlink", "server::listen::{closure#1}")
